@@ -190,3 +190,172 @@ pub fn run_searches(property: &str, tier: &str, level: &str, searches: Vec<Searc
     );
     exit
 }
+
+// -------------------------------------------------------------------------------------------
+// Flat (index-based) exhaustive enumerations, evaluated in chunks by worker subprocesses.
+
+pub struct FlatGroup {
+    pub name: String,
+    pub size: u64,
+    pub chunk: u64,
+    pub what: String,
+}
+
+#[derive(Debug, Clone, Default, serde::Serialize, serde::Deserialize)]
+pub struct FlatChunkReport {
+    pub evaluations: u64,
+    pub nontrivial: u64,
+    pub failures: Vec<String>,
+    pub sample: String,
+}
+
+/// `classify` maps a failure text to a known-finding id (only honoured when the id is listed for the property).
+pub fn run_flat(
+    property: &str,
+    tier: &str,
+    level: &str,
+    engine: &'static str,
+    params: Value,
+    groups: Vec<FlatGroup>,
+    timeout_s: u64,
+    assumptions: &[&str],
+    rule: &str,
+    classify: &dyn Fn(&str) -> Option<String>,
+) -> i32 {
+    use crate::par::{run_cases, CaseRes};
+    let findings = Findings::load();
+    let listed = findings.ids_for(property);
+    let texts = findings.texts_for(property);
+    let mut ev = Evidence::new(property, tier, level);
+    let mut total_eval = 0u64;
+    let mut total_nontrivial = 0u64;
+    let mut samples: Vec<Value> = vec![];
+    let mut per_group = vec![];
+    let mut violations: Vec<String> = vec![];
+    let mut known: BTreeMap<String, (usize, String)> = BTreeMap::new();
+    let mut machinery: Vec<String> = vec![];
+    let mut exhaustive = true;
+    let deadline = Instant::now() + wall_cap(tier);
+    let side = crate::sqldrv::scratch_root().join("side.txt");
+    let _ = std::fs::create_dir_all(crate::sqldrv::scratch_root());
+    for g in &groups {
+        let t0 = Instant::now();
+        if Instant::now() > deadline {
+            exhaustive = false;
+            per_group.push(json!({"group": g.name, "what": g.what, "size": g.size, "skipped": "wall-clock cap reached"}));
+            continue;
+        }
+        let mut cases = vec![];
+        let mut st = 0;
+        while st < g.size {
+            let en = (st + g.chunk).min(g.size);
+            cases.push(json!({"group": g.name, "start": st, "end": en}));
+            st = en;
+        }
+        let res = run_cases(engine, &params, &cases, timeout_s);
+        let mut g_eval = 0u64;
+        let mut g_non = 0u64;
+        let mut g_fail = 0usize;
+        let mut handle_failure = |f: String, violations: &mut Vec<String>, known: &mut BTreeMap<String, (usize, String)>| {
+            match classify(&f) {
+                Some(id) if listed.contains(&id) => {
+                    let e = known.entry(id).or_insert((0, f.clone()));
+                    e.0 += 1;
+                }
+                _ => violations.push(f),
+            }
+        };
+        for (case, r) in cases.iter().zip(res.into_iter()) {
+            match r {
+                CaseRes::Done(v) => {
+                    let rep: FlatChunkReport = serde_json::from_value(v).unwrap_or_default();
+                    g_eval += rep.evaluations;
+                    g_non += rep.nontrivial;
+                    if samples.len() < 12 && !rep.sample.is_empty() && case["start"] == 0 {
+                        samples.push(json!({"group": g.name, "case": rep.sample}));
+                    }
+                    for f in rep.failures {
+                        g_fail += 1;
+                        handle_failure(format!("[{}] {}", g.name, f), &mut violations, &mut known);
+                    }
+                }
+                CaseRes::Hung | CaseRes::Crashed(_) => {
+                    if let CaseRes::Crashed(m) = &r {
+                        if m.contains("harness-side panic") {
+                            machinery.push(format!("{}: {m}", g.name));
+                            continue;
+                        }
+                    }
+                    // pin down: one index at a time, the worker names each input in the side file before evaluating it
+                    let (s0, e0) = (case["start"].as_u64().unwrap(), case["end"].as_u64().unwrap());
+                    for idx in s0..e0 {
+                        let _ = std::fs::remove_file(&side);
+                        let c1 = json!({"group": g.name, "start": idx, "end": idx + 1, "single": true, "side": side.to_string_lossy()});
+                        let r1 = run_cases(engine, &params, &[c1], timeout_s);
+                        match &r1[0] {
+                            CaseRes::Done(v) => {
+                                let rep: FlatChunkReport = serde_json::from_value(v.clone()).unwrap_or_default();
+                                g_eval += rep.evaluations;
+                                g_non += rep.nontrivial;
+                                for f in rep.failures {
+                                    g_fail += 1;
+                                    handle_failure(format!("[{}] {}", g.name, f), &mut violations, &mut known);
+                                }
+                            }
+                            other => {
+                                let what = std::fs::read_to_string(&side).unwrap_or_else(|_| format!("input #{idx}"));
+                                let kind = match other {
+                                    CaseRes::Hung => "HANG (watchdog)".to_string(),
+                                    CaseRes::Crashed(m) => format!("PROCESS DEATH ({m})"),
+                                    _ => String::new(),
+                                };
+                                g_fail += 1;
+                                g_eval += 1;
+                                handle_failure(format!("[{}] {kind} on: {what}", g.name), &mut violations, &mut known);
+                            }
+                        }
+                    }
+                }
+            }
+        }
+        total_eval += g_eval;
+        total_nontrivial += g_non;
+        per_group.push(json!({"group": g.name, "what": g.what, "size": g.size, "evaluations": g_eval, "nontrivial": g_non, "failures": g_fail, "wall_s": (t0.elapsed().as_secs_f64()*100.0).round()/100.0}));
+        eprintln!("[{property}] {}: {} inputs, {} evaluations, {} failures, {:.1}s", g.name, g.size, g_eval, g_fail, t0.elapsed().as_secs_f64());
+    }
+    for (id, (n, first)) in &known {
+        println!("KNOWN-FINDING: property={property} {id} {} [re-observed {n} times; first: {}]", texts.get(id).cloned().unwrap_or_default(), first.chars().take(300).collect::<String>());
+    }
+    let mut exit = 0;
+    for v in violations.iter().take(20) {
+        let path = write_replay(property, &json!({"property": property, "classification": "violation", "engine": engine, "params": params, "detail": v}));
+        println!("VIOLATION property={property} replay={path}");
+        println!("  {}", v.chars().take(600).collect::<String>());
+        exit = 1;
+    }
+    if !machinery.is_empty() {
+        for m in machinery.iter().take(10) {
+            eprintln!("MACHINERY-ERROR property={property}: {m}");
+        }
+        if exit == 0 {
+            exit = 2;
+        }
+    }
+    ev.violations = violations.len();
+    ev.set("evaluations", json!(total_eval));
+    ev.set("distinct_nontrivial", json!(total_nontrivial));
+    ev.set("rule", json!(rule));
+    ev.set("exhaustive", json!(exhaustive));
+    ev.set("groups", json!(per_group));
+    ev.set("known_findings_reobserved", json!(known.iter().map(|(k, v)| (k.clone(), v.0)).collect::<BTreeMap<_, _>>()));
+    if samples.is_empty() {
+        samples.push(json!("no sample recorded"));
+    }
+    ev.set("samples", json!(samples));
+    for a in assumptions {
+        ev.assume(a);
+    }
+    ev.write();
+    eprintln!("[{property}] total: evaluations={total_eval} nontrivial={total_nontrivial} violations={} known={} exit={exit}", violations.len(), known.len());
+    exit
+}
